@@ -235,14 +235,22 @@ class Core:
         f_call = lambda *xs: th.fn(f'call_{nq}{suffix}', *sig, th.Val)(*xs)
         f_raises = lambda *xs: th.fn(f'craises_{nq}{suffix}', *sig, th.B)(*xs)
         f_exc = lambda *xs: th.fn(f'cexc_{nq}{suffix}', *sig, th.Exc)(*xs)
-        st0 = State(dict(f.env) if f.env else {}, [])
+        st0 = State(dict(f.env) if f.env else {}, list(getattr(f, '_prefacts', [])))
+        if f.self_sv is not None:
+            params = params[1:]
+            if len(params) > 3:
+                return
+            qs = [z3.Const(f'{p}!q{len(self.func_summ)}', th.Val) for p in params + kwonly]
+            nq = len(qs)
+            sig = [th.Val] * (nq + 1)
         saved = (self.obligations, self.spec_mode, self.loop_counter, th.fresh_log, self.lemma_sink)
         self.obligations = []          # obligations inside an escaping closure are not obligations of this function
         th.fresh_log = []
         self.lemma_sink = []
         try:
             self.spec_mode = False
-            outs = self.inline_call(f, [VVal(q) for q in qs[:len(params)]], {k: VVal(q) for k, q in zip(kwonly, qs[len(params):])}, st0, None)
+            outs = self.inline_call(f, [VVal(q) for q in qs[:len(params)]], {k: VVal(q) for k, q in zip(kwonly, qs[len(params):])}, st0, None,
+                                    self_sv=f.self_sv)
             parts = []
             n = len(qs)
             fresh_names = None
